@@ -282,18 +282,33 @@ impl<'a> Recorder<'a> {
     pub fn ksf_segment(&mut self, rng: &mut Prng) {
         let s = self.setup_new();
         let argon = self.w.suite.ksf_kind() == "argon2";
-        let insts: Vec<i64> = if argon { vec![0, 1, 2] } else { vec![0, 1, 2, 3] };
+        // ksf parameter: 0 absent, 1 explicit default, k >= 2 instance k-1 (Argon2: 2 other cost, 4 / 5 keyed with
+        // two secrets, 6 other variant and version, 7 / 8 keyed with an explicit 32-byte output length)
+        let insts: Vec<i64> = if argon { vec![0, 1, 2, 4, 5, 6, 7, 8] } else { vec![0, 1, 2, 3] };
+        // an Argon2 instance with an explicit output length fails by itself unless the OPRF hash has that length
+        let nh = self.w.lens.nh;
+        let self_failing = |k: i64| argon && (k == 7 || k == 8) && nh != 32;
         for (u, kreg) in insts.iter().enumerate() {
             let cid = 10 + u as i64;
+            if self_failing(*kreg) {
+                // registration under the failing instance: an error, nothing stored
+                let reg = self.reg_start(1);
+                let req = self.regs.last().unwrap().req;
+                if let Some(resp) = self.sreg_start(s, req, cid, reg) {
+                    self.reg_finish(reg, 1, resp, 0, 0, *kreg, true);
+                }
+                continue;
+            }
             let Some(rec) = self.register(s, 1, cid, 0, 0, *kreg) else { continue };
             for klog in &insts {
-                if argon && rng.chance(40) {
+                if argon && rng.chance(55) {
                     continue;
                 }
                 let c = self.cli_start(1);
                 let req = self.clis.last().unwrap().req;
                 if let Some((j, resp)) = self.srv_start(s, Some(rec), req, cid, 0, 0, 0, Some(c), false) {
-                    let fail = !argon && rng.chance(15); // only the instrumented KSF can be made to fail
+                    // only the instrumented KSF can be MADE to fail; an Argon2 instance may fail by itself
+                    let fail = (!argon && rng.chance(15)) || self_failing(*klog);
                     let (r, fin) = self.cli_finish(c, 1, resp, 0, 0, 0, *klog, fail);
                     if let (Res::Ok, Some(f)) = (r, fin) {
                         self.srv_finish(j, f);
